@@ -1036,7 +1036,7 @@ def tt_cp_apr_pqnr(  # noqa: PLR0912,PLR0913,PLR0915
                     # Start from a unit step length, decrease by 1/2,
                     # stop with sufficicent decrease of 1.0e-4 or at most 10 steps.
                     m_row, _, _, f_new, num_evals = tt_linesearch_prowsubprob(
-                        search_dir.transpose()[0],
+                        search_dir.reshape(-1),
                         gradOLD.transpose(),
                         m_rowOLD,
                         1,
